@@ -1,5 +1,6 @@
 import MiVerif.Model.Commit
 import MiVerif.Gen.Commit
+import MiVerif.Gen.ArenaGen
 /- correspondence driver for C07: every step of the real commit / purge functions of src/segment.c and of the arena allocation / free
    functions of src/arena.c, driven directly with OS refusals injected, is replayed through Model.Commit -/
 namespace C07Val
@@ -101,6 +102,30 @@ def parseA (ws : List String) : Option AObs :=
   | _ => none
 def aCollect (a : Arena) (nr og : Bool) : Arena :=
   (List.range 8).foldl (fun b k => if b.purge k && !b.inuse k then aPurge b k 1 nr og else b) a
+/-! the arena steps through the functions generated from src/arena.c (translator validation for Gen/ArenaGen.lean) -/
+def toGenA (a : Arena) (now : Int) : GenR.ArSt :=
+  { inuse := a.inuse, committed := a.committed, purge := a.purge, dirty := fun _ => false, os := a.os, hasCommitted := true, hasPurge := true,
+    hasDirty := false, pinned := false, zeroInit := false, expire := 0, gexpire := 0, start := 0 }
+def genAMatches (σ : GenR.ArSt) (ob : AObs) : Bool :=
+  eqUpTo 8 σ.inuse (maskOf ob.u) && eqUpTo 8 σ.committed (maskOf ob.c) && eqUpTo 8 σ.purge (maskOf ob.p) && eqUpTo 8 σ.os (maskOf ob.o)
+def genAlloc (a : Arena) (i nb : Nat) (commit osOk ic : Bool) (ob : AObs) : Option String :=
+  let r := GenR.mi_arena_try_alloc_at (toGenA a 1000) (nb : Int) commit true (i : Int) osOk false
+  match r.2 with
+  | none => some "generated mi_arena_try_alloc_at returns NULL where the code returned a range"
+  | some (_, m) =>
+    if m.initially_committed != ic then some s!"generated mi_arena_try_alloc_at: initially_committed {m.initially_committed}, the code {ic}"
+    else if !genAMatches r.1 ob then some "state after the generated mi_arena_try_alloc_at differs from the code"
+    else none
+/-- _mi_arena_free = (hand-written) marking of a partly committed range, the *generated* mi_arena_schedule_purge, release of the in-use bits -/
+def genFree (a : Arena) (i nb : Nat) (allc : Bool) (mode : Nat) (gone : Bool) (ob : AObs) : Option String :=
+  let σ0 := toGenA (aMark a i nb allc) 1000
+  let delay : Int := if mode = 0 then -1 else if mode = 1 then 0 else 10
+  let cands := [(false, false), (true, false), (true, gone)]
+  let ok := cands.any (fun c =>
+    let σ1 := GenR.mi_arena_schedule_purge σ0 (i : Int) (nb : Int) delay false c.1 c.2 c.1 c.2 1000
+    genAMatches { σ1 with inuse := GenR.mClr σ1.inuse (i : Int) (nb : Int) } ob)
+  if ok then none else some "no outcome of the OS purge makes the generated mi_arena_schedule_purge / mi_arena_purge agree with the code"
+
 def splitBar (ws : List String) : List String × List String :=
   (ws.takeWhile (· ≠ "|"), ws.dropWhile (· ≠ "|"))
 
@@ -143,7 +168,9 @@ partial def loop (h : IO.FS.Stream) (seg : Option Seg) (ar : Option Arena) (mode
         let (a', r) := aAlloc a i nb (commit == "1") (refused == "0")
         if r != (ic == "1") then do complain s!"initially_committed: model {r}, code {ic}"; loop h seg (some (aOf ob)) mode (n + 1) (d + 1)
         else if !aMatches a' ob then do complain "bitmaps / accessibility after the allocation differ from the model"; loop h seg (some (aOf ob)) mode (n + 1) (d + 1)
-        else loop h seg (some a') mode (n + 1) d
+        else match genAlloc a i nb (commit == "1") (refused == "0") (ic == "1") ob with
+          | some msg => do complain ("[Gen/ArenaGen.lean] " ++ msg); loop h seg (some a') mode (n + 1) (d + 1)
+          | none => loop h seg (some a') mode (n + 1) d
     | _, _ => loop h seg ar mode n d
   | "A" :: "alloc" :: _ =>   -- "-> none": nothing may change
     match ar, parseA tl with
@@ -157,7 +184,10 @@ partial def loop (h : IO.FS.Stream) (seg : Option Seg) (ar : Option Arena) (mode
       let i := idx.toNat!; let nb := blocks.toNat!; let g := gone == "1"
       let cands := [aFree a i nb (allc == "1") mode false false, aFree a i nb (allc == "1") mode true false, aFree a i nb (allc == "1") mode true g]
       match cands.find? (fun t => aMatches t ob) with
-      | some t => loop h seg (some t) mode (n + 1) d
+      | some t =>
+        match genFree a i nb (allc == "1") mode g ob with
+        | some msg => do complain ("[Gen/ArenaGen.lean] " ++ msg); loop h seg (some t) mode (n + 1) (d + 1)
+        | none => loop h seg (some t) mode (n + 1) d
       | none => complain "no outcome of the OS purge explains the bitmaps / accessibility after the free"; loop h seg (some (aOf ob)) mode (n + 1) (d + 1)
     | _, _ => loop h seg ar mode n d
   | "A" :: "collect" :: _ =>
